@@ -38,12 +38,13 @@ RULE = (
     "Seed corpus = small valid artefacts from the independent builders (QCOW2 plain/compressed/extended-L2/snapshots, VMDK "
     "KDMV / stream-optimized / COWD / SE-sparse / descriptor, VHDX, VHD dynamic+fixed, VDI, HDS v1+v2, Parallels descriptor "
     "dirs, Hyper-V, envelope, keystore, VMX plain+encrypted, vmtar plain+gzip). Mutations: every known field x {0, 1, 2, max, "
-    "max-1, value+-1, its own offset, another table's offset, file size} (enumerated), any aligned word of the metadata area "
+    "max-1, value+-1, its own offset, another table's offset, file size, and for size/length/offset/count fields minus the small "
+    "lengths found in the seed} (enumerated), any aligned word of the metadata area "
     "set to such values, truncation at structure boundaries +-1 and at random points, random multi-byte corruption, splices, "
     "runs of 25..3000 equal characters inserted at the structural positions of the text formats, Parallels storage bounds that do "
-    "not join up, crafted cycles (VHDX parent locators of length 1..3 opened by path, Parallels ParentGUID cycles of length 1..4 incl. cycles the start only leads into, Hyper-V object tables "
+    "not join up, crafted cycles (VHDX parent locators of length 1..3 and VMDK parent hints of length 1..2 opened by path, Parallels ParentGUID cycles of length 1..4 incl. cycles the start only leads into, Hyper-V object tables "
     "referencing themselves / each other at aligned and unaligned offsets, key-table parent loops, QCOW2 L1->header, VHDX region->itself) and decompression "
-    "bombs (QCOW2 cluster / VMDK grain whose deflate stream expands to >= 64 MiB), and a sweep of one request per grain over a "
+    "bombs (QCOW2 cluster / VMDK grain whose deflate stream expands to >= 64 MiB, also footer-governed with a deviating front header), and a sweep of one request per grain over a "
     "stream-optimised VMDK of 48 compressed 4 MiB grains (memory must follow the request, not the history). The driver opens the input and touches the "
     "public surface (size, 64 KiB reads at start/middle/tail, snapshots, as_dict, disks, members + extract, decrypt, unlock). "
     "Oracle: it returns or raises (any exception) within 10 s of CPU time and with a tracemalloc peak <= 64 MiB + 8 x (input + "
@@ -214,6 +215,29 @@ def seeds():
 
 
 @functools.lru_cache(maxsize=None)
+def vmdk_bomb_with_footer(front_grain: int) -> bytes:
+    """A stream-optimised VMDK (8-sector grains) whose only grain inflates to 128 MiB; the grain directory is named by the footer,
+    the front header defers to it (gd_offset -1) and carries `front_grain` as its own, superseded, grain size."""
+    zb = zlib.compress(bytes(128 << 20), 9)
+    spec = {"capacity": 64, "grain": 8, "gtes": 512, "compressed": True, "embedded_lba": True, "version": 3}
+    out = bytearray(1024)  # header + one spare sector: grain table entries 0 and 1 are the format's own sentinels
+    grain_sector = len(out) // 512
+    out += struct.pack("<QI", 0, len(zb)) + zb
+    out += bytes(-len(out) % 512)
+    out += bvmdk.marker(4, 1)  # grain table marker
+    gt_sector = len(out) // 512
+    out += struct.pack("<I", grain_sector).ljust(512 * 4, b"\x00")
+    out += bvmdk.marker(1, 2)  # grain directory marker
+    gd_sector = len(out) // 512
+    out += struct.pack("<I", gt_sector).ljust(512, b"\x00")
+    out += bvmdk.marker(1, 3)  # footer marker
+    out += bvmdk.kdmv_header(spec, gd_sector, 0, 1, 0, 0)
+    out += bvmdk.marker(0, 0)  # end of stream
+    out[:512] = bvmdk.kdmv_header(dict(spec, grain=front_grain), 0xFFFFFFFFFFFFFFFF, 0, 1, 0, 0)
+    return bytes(out)
+
+
+@functools.lru_cache(maxsize=None)
 def biggrain_vmdk(ngrains=48, grain=8192):
     """A stream-optimised VMDK of a few hundred KiB with `ngrains` compressed 4 MiB grains (a valid grain size), each a run of
     one byte value: what a reader keeps around after serving earlier requests shows up in the peak of a sweep over it."""
@@ -240,10 +264,12 @@ SEED_NAMES = ["qcow2", "qcow2-v2", "qcow2-extl2", "qcow2-snap", "qcow2-bomb", "v
 
 
 # ------------------------------------------------------------------------------------------- mutations
-def special_values(cur, width, off, size, others):
+def special_values(cur, width, off, size, others, small=()):
     top = (1 << (8 * width)) - 1
     vals = {0, 1, 2, top, top - 1, (cur + 1) & top, (cur - 1) & top, off & top, size & top, (size - 1) & top, (size // 512) & top, 1 << (8 * width - 1)}
     vals |= {o & top for o in others[:4]}
+    # two's complements of the small sizes / distances that occur in the seed ("minus the length of the entry before")
+    vals |= {(-v) & top for v in small} | {(-cur) & top}
     vals.discard(cur)
     return sorted(vals)
 
@@ -259,11 +285,13 @@ def exhaustive(tier):
             continue
         others = sorted({o for o, _w in fields.values()})
         order = field_order(kind)
+        small = sorted({int.from_bytes(data[o : o + w], order) for o, w in fields.values() if o + w <= len(data)} & set(range(3, 4097)))[:12]
         for fname, (off, width) in fields.items():
             if off + width > len(data):
                 continue
             cur = int.from_bytes(data[off : off + width], order)
-            for v in special_values(cur, width, off, len(data), others):
+            lengthy = width >= 4 and any(t in fname.lower() for t in ("size", "len", "off", "count"))
+            for v in special_values(cur, width, off, len(data), others, small if lengthy else ()):
                 yield {"seed": sname, "ops": [["set", off, width, v, order]], "field": fname}
     # crafted cycles and bombs
     for n in range(1, 5):
@@ -322,6 +350,14 @@ def exhaustive(tier):
             for ch in (" ", "\t", "(", "a", "%", "/"):
                 for count in (40, 3000):
                     yield {"seed": sname, "ops": [["insert", off, ch, count]], "field": "run-insert"}
+    # a stream-optimised bomb whose front header copy (superseded by the footer) names another grain size
+    for front in (0, 1, 1 << 21, (1 << 64) - 1):
+        yield {"seed": "vmdk-bomb", "ops": [], "craft": "bomb-footer", "front_grain": front}
+    # VMDK descriptors whose parent hints lead back into a cycle; the hint names the directory the descriptor lives in,
+    # is a bare file name, or an absolute path
+    for n in (1, 2):
+        for style in ("dir", "bare", "abs"):
+            yield {"seed": "hdd-descriptor", "ops": [], "vmdk_parent_cycle": n, "hint": style}
     yield {"seed": "qcow2-bomb", "ops": []}
     yield {"seed": "vmdk-bomb", "ops": []}
     # memory must follow the request at hand, not the number of earlier requests: sweep over many large compressed grains
@@ -528,6 +564,28 @@ def vhdx_parent_cycle_case(spec):
         shutil.rmtree(d, ignore_errors=True)
 
 
+def vmdk_parent_cycle_case(spec):
+    from dissect.hypervisor.disk.vmdk import VMDK
+
+    n, style = spec["vmdk_parent_cycle"], spec["hint"]
+    top = scratch_dir()
+    try:
+        d = os.path.join(top, "vm")
+        os.mkdir(d)
+        for i in range(n):
+            nxt = f"disk{(i + 1) % n}.vmdk"
+            hint = {"dir": "vm/" + nxt, "bare": nxt, "abs": os.path.join(d, nxt)}[style]
+            with open(os.path.join(d, f"disk{i}.vmdk"), "w") as f:
+                f.write(bvmdk.descriptor_text({"parent_cid": "11223344", "parent_hint": hint, "extents": [
+                    {"sectors": 16, "type": "FLAT", "file": "flat.bin", "offset": 0}]}))
+        with open(os.path.join(d, "flat.bin"), "wb") as f:
+            f.write(bytes(16 * 512))
+        v = VMDK(Path(d) / "disk0.vmdk")
+        touch_stream(v)
+    finally:
+        shutil.rmtree(top, ignore_errors=True)
+
+
 def hdd_storages_case(spec):
     from dissect.hypervisor.disk.hdd import HDD
 
@@ -623,10 +681,11 @@ def declared_unit(kind, data: bytes) -> int:
     unit to serve a byte of it, so the statement's bound is relative to it (capped at what the format allows)."""
     try:
         if kind == "vmdk" and data[:4] == b"KDMV":
-            sizes = [struct.unpack_from("<Q", data, 20)[0]]
-            if len(data) >= 1024 and data[-1024:-1020] == b"KDMV":
-                sizes.append(struct.unpack_from("<Q", data, len(data) - 1024 + 20)[0])
-            return min(max(sizes) * 512, 1 << 31)
+            front = struct.unpack_from("<Q", data, 20)[0]
+            if len(data) >= 1024 and data[-1024:-1020] == b"KDMV" and struct.unpack_from("<Q", data, 56)[0] == 0xFFFFFFFFFFFFFFFF:
+                # the front header defers to the footer (gd_offset == -1): the footer's grain size is the one in force
+                return min(struct.unpack_from("<Q", data, len(data) - 1024 + 20)[0] * 512, 1 << 31)
+            return min(front * 512, 1 << 31)
         if kind == "qcow2" and len(data) >= 24:
             return 1 << min(struct.unpack_from(">I", data, 20)[0], 21)
     except struct.error:
@@ -656,9 +715,11 @@ def check(spec) -> Outcome:
     out.cls(sname)
     inp_len = 0
     runner = None
-    runner_is_input = not ("cycle" in spec or "vhdx_parent_cycle" in spec or "hdd_storages" in spec)
-    if "cycle" in spec or "vhdx_parent_cycle" in spec or "hdd_storages" in spec:
-        fn = hdd_cycle_case if "cycle" in spec else vhdx_parent_cycle_case if "vhdx_parent_cycle" in spec else hdd_storages_case
+    crafted_dirs = ("cycle", "vhdx_parent_cycle", "hdd_storages", "vmdk_parent_cycle")
+    runner_is_input = not any(k in spec for k in crafted_dirs)
+    if not runner_is_input:
+        fn = (hdd_cycle_case if "cycle" in spec else vhdx_parent_cycle_case if "vhdx_parent_cycle" in spec else
+              vmdk_parent_cycle_case if "vmdk_parent_cycle" in spec else hdd_storages_case)
         runner = lambda: fn(spec)  # noqa: E731
         inp_len = 4096 if "vhdx_parent_cycle" not in spec else 4 << 20
         out.cls("crafted-cycle" if "hdd_storages" not in spec else "crafted")
@@ -673,6 +734,9 @@ def check(spec) -> Outcome:
             out.cls("crafted")
         elif spec.get("craft") == "region-to-itself":
             mutated = apply_ops(data, [["set", 196608 + 32, 8, 196608, "little"], ["set", 196608 + 64, 8, 196608, "little"]])
+            out.cls("crafted")
+        elif spec.get("craft") == "bomb-footer":
+            mutated = vmdk_bomb_with_footer(spec["front_grain"])
             out.cls("crafted")
         elif spec.get("craft") == "biggrain-sweep":
             mutated = biggrain_vmdk()
